@@ -172,7 +172,9 @@ func (r *dRun) desired(k dKid, value string) sim.Obj {
 // asCreatedByDC renders an attachment the way the decorator would have created it.
 func (r *dRun) asCreatedByDC(k dKid, value, marker string) sim.Obj {
 	d := r.desired(k, value)
-	sim.SetAnnotations(d, map[string]string{sim.DecoratorAnnotation: marker})
+	dann := sim.Annotations(d) // (the hook's own annotations stay)
+	dann[sim.DecoratorAnnotation] = marker
+	sim.SetAnnotations(d, dann)
 	obj := sim.DeepCopy(d)
 	data, _ := json.Marshal(d)
 	ann := sim.Annotations(obj)
@@ -212,7 +214,9 @@ func (r *dRun) createInitial(io dInit) {
 		sim.AddOwner(obj, r.target, true)
 	case "marker-only":
 		obj = r.desired(k, io.Value)
-		sim.SetAnnotations(obj, map[string]string{sim.DecoratorAnnotation: r.sc.ID})
+		mann := sim.Annotations(obj)
+		mann[sim.DecoratorAnnotation] = r.sc.ID
+		sim.SetAnnotations(obj, mann)
 	case "foreign":
 		obj = r.desired(k, io.Value)
 		sim.AddOwner(obj, sim.Obj{"apiVersion": "apps/v1", "kind": "ReplicaSet", "metadata": sim.Obj{"name": "rs", "uid": "rs-" + r.sc.ID}}, true)
@@ -405,6 +409,11 @@ func (r *dRun) applyEdit(e dEdit) bool {
 		}
 		switch e.Op {
 		case "drift":
+			// every second drift is a metadata-only one (it moves resourceVersion, not generation)
+			if e.Kid%2 == 1 {
+				_, err := s.ExtMutate(ri.GVR(), sim.NS(o), sim.Name(o), func(o sim.Obj) { sim.SetNested(o, "tampered-"+e.Value, "metadata", "annotations", "hook-note") })
+				return err == nil
+			}
 			_, err := s.ExtMutate(ri.GVR(), sim.NS(o), sim.Name(o), func(o sim.Obj) { sim.SetNested(o, "drift-"+e.Value, field, "value") })
 			return err == nil
 		case "foreign-field":
